@@ -482,8 +482,8 @@ notation!(
 			= *attribute_name_index => attribute_name_index if pool_has_utf8(pool, attribute_name_index, b"MethodParameters")?,
 			mut attribute_name_index: u16 nowrite = attribute_name_index,
 			const attribute_length: u32 = this._len() - 6,
-			//parameters_count: u16,
-			mut parameters: Vec<MethodParametersEntry> [u16],
+			//parameters_count: u8,
+			mut parameters: Vec<MethodParametersEntry> [u8],
 		},
 		Module this {
 			= *attribute_name_index => attribute_name_index if pool_has_utf8(pool, attribute_name_index, b"Module")?,
